@@ -20,7 +20,7 @@ EXPLANATION = (
     "on_enable(), which enters the first state; C15.T1 the engine leaves a state only after a strict 'expiry < tm'; C15.T2 state_tm "
     "is 0 on entry by request, tm - predecessor expiry on entry by expiry, tm - recorded entry time afterwards, and the expiry recorded "
     "on entry is entry time + the '<state>_duration' attribute that on_enable() read from the dashboard key '<MODE_NAME>\\\\<state>_"
-    "duration' registered with the decorator's value as default; C15.A the tm passed to the state function is on_iteration's argument."
+    "duration' registered with the decorator's value as default; C15.A the tm passed to the state function is on_iteration's argument.  After on_enable() every '<state>_duration' attribute is the value the dashboard returned for its key, not a function of it (no conversion / truncation)."
 )
 RULE = "one case = one (typestate, client call, oracle resolution) transition; distinct = reachable typestates"
 EXHAUSTIVE = True
